@@ -6,6 +6,7 @@ from functools import update_wrapper
 from io import StringIO
 from itertools import chain
 from keyword import iskeyword as is_python_keyword
+from math import isfinite
 
 from markupsafe import escape
 from markupsafe import Markup
@@ -127,8 +128,15 @@ def has_safe_repr(value: t.Any) -> bool:
     if value is None or value is NotImplemented or value is Ellipsis:
         return True
 
-    if type(value) in {bool, int, float, complex, range, str, Markup}:
+    if type(value) in {bool, int, range, str, Markup}:
         return True
+
+    # inf and nan have no literal, their repr is a name
+    if type(value) is float:
+        return isfinite(value)
+
+    if type(value) is complex:
+        return isfinite(value.real) and isfinite(value.imag)
 
     if type(value) in {tuple, list, set, frozenset}:
         return all(has_safe_repr(v) for v in value)
@@ -1665,6 +1673,9 @@ class CodeGenerator(NodeVisitor):
         val = node.as_const(frame.eval_ctx)
         if isinstance(val, float):
             rv = str(val)
+            # inf and nan have no literal
+            if rv in ("inf", "-inf", "nan"):
+                rv = f"float({rv!r})"
         else:
             rv = repr(val)
         # a negative number (for example a folded unary minus) must stay
